@@ -398,6 +398,7 @@ def handleTplRun : Handler := fun inp out => do
     fails := fails ++ [("C37", s!"pages of the template run {(pageKeys run).compress} differ from the pages of the direct list query {(pageKeys list).compress}")]
   -- C38: malformed cursors
   let mut sig := ""
+  let mut knownOnly := 0
   for b in bad do
     let kind := optStrField b "kind"
     let status := natD b "status"
@@ -412,10 +413,15 @@ def handleTplRun : Handler := fun inp out => do
     else
       -- decodable cursors: never 5xx
       tags := tags ++ [s!"decodable-cursor:{kind}:{cls}"]
-      if kind = "volumes-column-address" then
-        -- recorded observation (unchanged tree: 500): the volumes schema's field `address` is not a column of the
-        -- volumes dataset (`account` is); also GET /v2/{ledger}/volumes?sort=address:asc
-        pure ()
+      if kind = "volumes-column-address" || kind = "volumes-accounts-cursor" || kind = "volumes-sort-address" then
+        -- KNOWN FINDING (recorded, not repaired): on volumes the sort column `address` — the field key of
+        -- queries.VolumeSchema (alias `account`), not a column of the volumes dataset — is rendered verbatim into
+        -- ORDER BY: SQLSTATE 42703 → HTTP 500. One sig for the three routes; any other 5xx is a violation.
+        if status = 500 then
+          fails := fails ++ [("C38", s!"volumes sorted by `address` ({kind}) answered 500")]
+          knownOnly := knownOnly + 1
+        else if status ≥ 500 || status = 0 then
+          fails := fails ++ [("C38", s!"volumes sorted by `address` ({kind}) answered {status}")]
       else
         if status ≥ 500 || status = 0 then
           fails := fails ++ [("C38", s!"cursor `{kind}` on a {optStrField inp "resource"} template answered {status} {optStrField b "errorCode"}")]
@@ -439,7 +445,10 @@ def handleTplRun : Handler := fun inp out => do
   pure { model := Json.null, agree := true, prop := selFails.isEmpty, propModel := true,
          nontrivial := run.length ≥ 2 && bad.length ≥ 10,
          tags := dedup tags, note := "; ".intercalate (selFails.take 4),
-         sig := if selFails.isEmpty || !(sel "C38") then "" else sig }
+         -- the known finding's signature only when it is the ONLY thing that failed in this case
+         sig := if selFails.isEmpty || !(sel "C38") then ""
+                else if knownOnly > 0 && selFails.length = knownOnly then "C38:volumes-sort-column-address-500"
+                else sig }
 
 def handlers : List (String × Handler) := [
   ("httpe2e", handleHttpE2e),
